@@ -137,8 +137,17 @@ def _ctx(case, M=None):
     covered = True
     if case["method"] == "randomized_svd":
         covered = min(kk + case["os"], max(m, n)) >= rank
+    below = _below_gap(sig, r)
+    tol = _tol(case["method"])
+    if case["method"] == "symeig_svd":
+        # The Gram route resolves component k only to about eps * (sigma_1 / sigma_k)^2: between the D19 gap
+        # (sigma_k <= 1e-6 sigma_1, known finding) and sigma_k ~ 1e-4 sigma_1 a fixed 1e-6 would demand more than
+        # the method can deliver (seed 5 produced sigma_5 / sigma_1 = 4.1e-6 with an orthonormality error of 7.9e-6).
+        good = [float(sig[j]) for j in range(r) if j not in set(below) and sig[j] > 0]
+        if good:
+            tol = max(tol, 50 * np.finfo(float).eps * (s1 / min(good)) ** 2)
     return {"M": M, "m": m, "n": n, "sig": sig, "kk": kk, "r": r, "s1": s1, "rank": rank, "covered": covered,
-            "below": _below_gap(sig, r), "tol": _tol(case["method"])}
+            "below": below, "tol": tol}
 
 
 def _shapes(c, U, S, V, clause="shape"):
